@@ -1,0 +1,15 @@
+//go:build verif
+
+package clock
+
+// Contracts for the govc verifier (/verif). This file contains comments only;
+// it does not change the compiled package.
+
+// The timer goroutines are started with c.lock held by the spawning function
+// and release it themselves: the lock is handed over at the go statement.
+//@ func (*SuspendableClock).NewContextWithTimeout$1
+//@   props C14 C11
+//@   lockeffect c.lock -1
+//@ func (*SuspendableClock).NewTimer$1
+//@   props C14 C11
+//@   lockeffect c.lock -1
